@@ -5,7 +5,7 @@ import typing
 from email.header import Header
 from mailbox import Maildir, Message, mbox
 
-from pygopherd import gopherentry
+from pygopherd import GopherExceptions, gopherentry
 from pygopherd.handlers.base import VFS_Real
 from pygopherd.handlers.virtual import Virtual
 
@@ -57,7 +57,8 @@ class MessageHandler(Virtual):
         """We put MBOX-MESSAGE in here so we don't have to re-check
         the first line of the mbox file before returning a true or false
         result."""
-        if not self.selectorargs:
+        if not self.selectorargs or not self.statresult:
+            # No arguments, or the mailbox itself does not exist.
             return False
 
         pattern = "^" + self.getargflag() + r"(\d+)$"
@@ -103,7 +104,12 @@ class MessageHandler(Virtual):
         mailbox = iter(self.openmailbox())
         message = None
         for _ in range(self.message_num):
-            message = next(mailbox)
+            try:
+                message = next(mailbox)
+            except StopIteration:
+                raise GopherExceptions.FileNotFound(
+                    self.selector, "no such message", self.protocol
+                )
 
         self.message = message
         return self.message
